@@ -64,8 +64,8 @@ def digest(x) -> str:
     return h.hexdigest()
 
 
-_START_ERR = np.geterr()   # numpy's error state when the harness was loaded (restored before every lone run of the frame condition,
-                           # so that a task is judged against the defaults and not against what an earlier call left behind)
+_START_ERR = env.START_ERR   # numpy's error state before any library code ran (restored before every lone run of the frame
+                             # condition, so that a task is judged against the defaults and not against what an earlier call left behind)
 
 
 def frame() -> dict:
